@@ -2,7 +2,7 @@
    Kalman step uses, obs_len = 2), the Kalman gain solves its defining equation, and the
    constants regenerated from the source are ordered as the comments promise. *)
 From Coq Require Import ZArith List Bool Lia Arith QArith Qcanon Field.
-From Centro Require Import Gen.ConstsC09 Model.Kalman Spec.Kalman.
+From Centro Require Import Gen.ConstsC09 Model.Kalman Spec.Kalman Proofs.KalmanArith.
 Import ListNotations.
 Open Scope Qc_scope.
 
@@ -16,15 +16,15 @@ Lemma det1_2 a b c d : det1 [[a; b]; [c; d]] = a * d - b * c.
 Proof.
   unfold det1. cbn [length]. cbv [seq permutations perms_fuel removes length flat_map map app fst snd
     parity inversions filter Nat.ltb Nat.leb Nat.even Nat.add sign_of qsum qprod fold_left entry nth].
-  ring.
+  qnorm. ring.
 Qed.
 
 Lemma inv1_1 a : inv1 [[a]] = [[1 / a]].
 Proof.
   unfold inv1. cbn [length seq map]. unfold cofactor1. cbn [remove_nth map].
-  change (det1 []) with (0 + 1 * 1). rewrite det1_1. cbn [Nat.add Nat.even sign_of].
+  change (det1 []) with (qadd 0 (qmul 1 1)). rewrite det1_1. cbn [Nat.add Nat.even sign_of].
   assert (E : forall x y : Qc, x = y -> [[x]] = [[y]]) by (intros x y ->; reflexivity).
-  apply E. unfold Qcdiv. ring.
+  apply E. qnorm. unfold Qcdiv. ring.
 Qed.
 
 Lemma inv1_2 a b c d :
@@ -32,7 +32,7 @@ Lemma inv1_2 a b c d :
   let k := a * d - b * c in [[d / k; - b / k]; [- c / k; a / k]].
 Proof.
   unfold inv1. rewrite det1_2. cbn [length seq map]. unfold cofactor1. cbn [remove_nth map].
-  rewrite !det1_1. cbn [Nat.add Nat.even sign_of]. cbn zeta.
+  rewrite !det1_1. cbn [Nat.add Nat.even sign_of]. cbn zeta. qnorm.
   unfold Qcdiv. repeat (f_equal; try ring).
 Qed.
 
@@ -40,7 +40,7 @@ Theorem inv_n_correct_1 a : det1 [[a]] <> 0 ->
   mmul [[a]] (inv1 [[a]]) = I1 /\ mmul (inv1 [[a]]) [[a]] = I1.
 Proof.
   rewrite det1_1, inv1_1. intros H.
-  cbv [mmul map map2 combine col ncols hd length seq nth qsum fold_left fst snd I1].
+  cbv [mmul map map2 combine col ncols hd length seq nth qsum fold_left fst snd I1]. qnorm.
   split; repeat f_equal; field; exact H.
 Qed.
 
@@ -49,7 +49,7 @@ Theorem inv_n_correct_2 a b c d : det1 [[a; b]; [c; d]] <> 0 ->
   mmul (inv1 [[a; b]; [c; d]]) [[a; b]; [c; d]] = I2.
 Proof.
   rewrite det1_2, inv1_2. intros H. cbn zeta.
-  cbv [mmul map map2 combine col ncols hd length seq nth qsum fold_left fst snd I2].
+  cbv [mmul map map2 combine col ncols hd length seq nth qsum fold_left fst snd I2]. qnorm.
   split; repeat f_equal; field; exact H.
 Qed.
 
